@@ -13,6 +13,7 @@ package props
 import (
 	"bytes"
 	"compress/gzip"
+	"encoding/json"
 	"fmt"
 	"io"
 	"os"
@@ -63,6 +64,9 @@ var c15Corrupt = []string{"truncate", "zero", "bitflip", "plaintrunc", "crash", 
 var c15Stale = []string{"stale-other", "mutate"}
 
 func c15FaultClass(kind string) string {
+	if kind == "cache-hole" {
+		return "hole"
+	}
 	for _, k := range c15Stale {
 		if k == kind {
 			return "stale"
@@ -74,24 +78,34 @@ func c15FaultClass(kind string) string {
 // c15Faults is the set of damage kinds currently applied to one asset's cache files.
 type c15Faults map[string]bool
 
-// Class: corrupt | stale | mixed (both kinds hit files of the same asset).
+// Class: corrupt | stale | hole (a well-formed file whose segment table has a hole) |
+// hole+corrupt | mixed (a stale file together with files of another class in the same asset).
 func (f c15Faults) Class() string {
 	if len(f) == 0 {
 		return ""
 	}
-	stale, corrupt := false, false
+	stale, corrupt, hole := false, false, false
 	for k := range f {
-		if c15FaultClass(k) == "stale" {
+		switch c15FaultClass(k) {
+		case "stale":
 			stale = true
-		} else {
+		case "hole":
+			hole = true
+		default:
 			corrupt = true
 		}
 	}
+	// Whenever a stale file is involved the outcome may be the stale file's doing (an open known
+	// finding matches "stale|mixed"); "hole" stays a class of its own otherwise.
 	switch {
-	case stale && corrupt:
+	case stale && (corrupt || hole):
 		return "mixed"
 	case stale:
 		return "stale"
+	case hole && corrupt:
+		return "hole+corrupt"
+	case hole:
+		return "hole"
 	}
 	return "corrupt"
 }
@@ -133,9 +147,16 @@ func c15GenWorld(rng *core.Rng, tier string, kind string, small bool) c15World {
 	}
 	classes := []string{"good", "good", "good", "good", "nonms", "disagree"}
 	for i := 0; i < nGen; i++ {
-		o := hx.GenOpts{Name: fmt.Sprintf("gen/a%d", i), Tag: uint32(100 + i), Class: core.Pick(rng, classes), MaxFrames: 500}
+		o := hx.GenOpts{Name: fmt.Sprintf("gen/a%d", i), Tag: uint32(100 + i), Class: core.Pick(rng, classes), MaxFrames: 500,
+			// audio at other rates than 48 kHz has no codec/timescale fallback for its frame duration
+			// in the server: what the scan learns from the segments must survive the cache
+			AudioRates: []uint32{48000, 48000, 44100, 32000, 22050}, AudioDurModes: []string{"tfhd", "tfhd", "tfhd", "trex", "trex", ""},
+			GapIn: "any"}
 		if i == 0 {
 			o.Class = "good"
+			// the first asset is always servable: audio at another rate than 48 kHz with its frame
+			// duration only in the trun entries gets 500 for every MPD (also from the scanning instance)
+			o.AudioDurModes = []string{"tfhd", "tfhd", "trex"}
 		}
 		if kind == "faultfree" && i > 0 && rng.Chance(0.12) {
 			// a hole in the media timeline; only with $Time$ addressing, where the hole is in the
@@ -239,7 +260,8 @@ func (C15) Gen(rng *core.Rng, tier string, idx int) *core.Scenario {
 		return sc
 	}
 	sc.AddOp(c15Op{Op: "start", Mode: "write"})
-	kinds := []string{"truncate", "truncate", "zero", "delete", "bitflip", "bitflip", "plaintrunc", "stale-other", "crash", "crash", "diskfull", "mutate"}
+	kinds := []string{"truncate", "truncate", "zero", "delete", "bitflip", "bitflip", "plaintrunc", "stale-other", "crash", "crash", "diskfull", "mutate",
+		"cache-hole", "cache-hole"}
 	for r := 0; r < rounds; r++ {
 		for n := rng.Range(1, 2); n > 0; n-- {
 			k := core.Pick(rng, kinds)
@@ -582,16 +604,18 @@ func (r *c15Run) opStart(op c15Op) {
 	if op.Mode != "write" {
 		return
 	}
+	fullAssets := map[string]bool{}
 	if fullBefore > 0 {
 		// disk full during this write run: was the write error noticed?
 		res.Add("fault.diskfull-fired", fullBefore)
 		if srv == nil {
 			res.Count("probe.write-error-reported")
 		} else {
-			res.Count("probe.write-error-silent")
+			res.Count("probe.write-error-startup-continues")
 		}
 		for _, p := range sortedKeys(r.pendingFull) {
 			rel, _ := filepath.Rel(r.meta, p)
+			fullAssets[c15AssetOfFile(filepath.ToSlash(rel))] = true
 			r.markAffected(c15AssetOfFile(filepath.ToSlash(rel)), "diskfull")
 		}
 		r.clearFullLinks()
@@ -601,10 +625,13 @@ func (r *c15Run) opStart(op c15Op) {
 	}
 	// a complete write run replaces every cache file: stale/corrupt files are gone, except the
 	// ones that could not be written (disk full, handled above).
+	// An asset with a file that could not be written keeps its earlier faults as well: the failed
+	// write aborts the loading of that MPD, so the files of its later representations are not
+	// rewritten by this run either.
 	keep := map[string]c15Faults{}
 	for k, v := range r.affected {
-		if v["diskfull"] && fullBefore > 0 {
-			keep[k] = c15Faults{"diskfull": true}
+		if fullAssets[k] {
+			keep[k] = v
 		}
 	}
 	r.affected = keep
@@ -725,6 +752,10 @@ func (r *c15Run) opDamage(op c15Op) {
 		res.Event("damage crash file#%d/%d prefix=%d of %d (crash points %d)", j, len(have), k-1, sizes[j], total)
 		return
 	}
+	if op.Kind == "cache-hole" {
+		r.damageCacheHole(op, cand, arg)
+		return
+	}
 	f := pick(op.File)
 	p := r.abs(f)
 	data, err := os.ReadFile(p)
@@ -816,6 +847,93 @@ func (r *c15Run) opDamage(op c15Op) {
 		return
 	}
 	res.Count("fault." + op.Kind)
+}
+
+// damageCacheHole rewrites one cache file as well-formed JSON whose segment table has a hole:
+// every segment after segment k starts (and ends) g ticks later, so endTime(k) != startTime(k+1).
+// Audio representations are preferred (their table is not the reference one).
+func (r *c15Run) damageCacheHole(op c15Op, cand []string, arg int64) {
+	res := r.res
+	type target struct {
+		file string
+		doc  map[string]any
+		segs []any
+	}
+	var audio, other []target
+	for _, f := range cand {
+		if !strings.HasSuffix(f, ".gz") {
+			continue
+		}
+		data, err := os.ReadFile(r.abs(f))
+		if err != nil {
+			continue
+		}
+		plain, err := gunzip(data)
+		if err != nil {
+			continue
+		}
+		dec := json.NewDecoder(bytes.NewReader(plain))
+		dec.UseNumber()
+		var doc map[string]any
+		if dec.Decode(&doc) != nil {
+			continue
+		}
+		segs, _ := doc["segments"].([]any)
+		if len(segs) < 2 {
+			continue
+		}
+		t := target{file: f, doc: doc, segs: segs}
+		if doc["contentType"] == "audio" {
+			audio = append(audio, t)
+		} else {
+			other = append(other, t)
+		}
+	}
+	pool := audio
+	if len(pool) == 0 || op.File%5 == 4 {
+		pool = append(pool, other...)
+	}
+	if len(pool) == 0 {
+		res.Event("damage cache-hole skipped")
+		return
+	}
+	t := pool[op.File%len(pool)]
+	num := func(v any) int64 {
+		n, _ := v.(json.Number)
+		i, _ := n.Int64()
+		return i
+	}
+	g := num(t.doc["constantSampleDuration"])
+	if g <= 0 {
+		g = 1000
+	}
+	g *= 1 + arg%8
+	k := 1 + int((arg/8)%int64(len(t.segs)-1))
+	for i := k; i < len(t.segs); i++ {
+		sg, ok := t.segs[i].(map[string]any)
+		if !ok {
+			return
+		}
+		sg["startTime"] = json.Number(fmt.Sprint(num(sg["startTime"]) + g))
+		sg["endTime"] = json.Number(fmt.Sprint(num(sg["endTime"]) + g))
+	}
+	out, err := json.Marshal(t.doc)
+	if err != nil {
+		panic("harness: " + err.Error())
+	}
+	var buf bytes.Buffer
+	zw := gzip.NewWriter(&buf)
+	_, _ = zw.Write(out)
+	_ = zw.Close()
+	if err := os.WriteFile(r.abs(t.file), buf.Bytes(), 0o644); err != nil {
+		panic("harness: " + err.Error())
+	}
+	r.markAffected(c15AssetOfFile(t.file), "cache-hole")
+	res.Count("fault.cache-hole")
+	if t.doc["contentType"] == "audio" {
+		res.Count("fault.cache-hole-audio")
+	}
+	res.Event("damage cache-hole %v after segment %d of %d by %d", t.doc["contentType"], k, len(t.segs), g)
 }
 
 func (r *c15Run) opMutate(op c15Op) {
@@ -1043,7 +1161,9 @@ func (r *c15Run) opCompare(op c15Op) {
 				}
 			}
 			res.Count("probe.bad-asset-" + a.Class)
-		} else if !listedA && a.Class != "gap" {
+		} else if !listedA && a.Class == "gap" {
+			res.Count("probe.gap-asset-left-out-" + a.Traits["gapin"])
+		} else if !listedA {
 			res.Violate("C15.sanity-good-asset-served", core.Sig("kind", "good-asset-not-listed", "class", a.Class),
 				"asset %s (%s) is not listed by the scanning instance", a.Name, a.Class)
 		}
@@ -1136,7 +1256,7 @@ func (r *c15Run) opCompare(op c15Op) {
 			}
 		}
 		// (4) contiguity over one full loop, observed on the instance under test
-		if op.Chain && listedB && cur != nil && fault == "" {
+		if (op.Chain || a.Class == "gap") && listedB && cur != nil && fault == "" {
 			r.chain(a, cur, op.T)
 		}
 	}
@@ -1189,24 +1309,65 @@ func (r *c15Run) chain(a *c15Asset, cur *hx.Srv, T int64) {
 			var prevEnd uint64
 			havePrev := false
 			n := 0
+			// source attribution (generated assets): which VoD sample each served sample is
+			var spec *hx.AssetSpec
+			var tab []hx.SegInfo
+			repIdx := -1
+			if a.Gen >= 0 && a.Gen < len(r.w.Gen) {
+				spec = &r.w.Gen[a.Gen]
+				for i, rs := range spec.Reps {
+					if rs.ID == ca.RepID {
+						repIdx, tab = i, spec.Table(rs)
+					}
+				}
+			}
+			prevSeg, prevIdx := -1, -1
 			for _, ds := range segs {
 				sr := cur.GetAt(prefix+"/"+ds.URL, now)
 				res.Count("op.chain-segment")
 				if sr.Status != 200 {
-					havePrev = false
+					havePrev, prevSeg = false, -1
+					res.Count("probe.chain-segment-not-200")
+					if a.Class == "gap" {
+						res.Violate("C15.contiguous", merge(core.Sig("kind", "listed-segment-not-served", "content", ca.ContentType), pickTraits(a.Traits, "asset", "class", "gapin")),
+							"%s %s (%s instance, %s): asset with a hole is served, segment %s listed in the MPD gives %d", a.Name, ca.RepID, r.curMode, typ, ds.URL, sr.Status)
+					}
 					continue
 				}
 				sg, err := hx.ParseSeg(sr.Body, in.Trex)
 				if err != nil {
-					havePrev = false
+					havePrev, prevSeg = false, -1
 					continue
+				}
+				if repIdx >= 0 {
+					// Each segment of the table must start where the previous one ends: when the served
+					// stream passes from the last sample of VoD segment k to the first sample of VoD
+					// segment k+1, the two must be adjacent in the VoD media timeline (from the files).
+					for _, sm := range sg.AllSamples() {
+						tag, ri, si, ki, ok := hx.DecodePayload(sm.Data)
+						if !ok || tag != spec.Tag || ri != repIdx || si >= len(tab) {
+							prevSeg = -1
+							res.Count("probe.chain-foreign-sample")
+							continue
+						}
+						res.Count("probe.chain-sample-attributed")
+						if prevSeg >= 0 && si == prevSeg+1 && ki == 0 && prevIdx == tab[prevSeg].Frames-1 {
+							res.Count("probe.chain-source-boundary-crossed")
+							if tab[si].Start != tab[prevSeg].End {
+								res.Violate("C15.contiguous", merge(core.Sig("kind", "source-hole-served-as-continuous", "content", ca.ContentType), pickTraits(a.Traits, "asset", "class", "gapin")),
+									"%s %s (%s instance, %s): served samples run from VoD segment %d (ends at %d) straight into VoD segment %d (starts at %d): the loaded table has a hole of %d ticks",
+									a.Name, ca.RepID, r.curMode, typ, prevSeg+1, tab[prevSeg].End, si+1, tab[si].Start, tab[si].Start-tab[prevSeg].End)
+							}
+						}
+						prevSeg, prevIdx = si, ki
+					}
 				}
 				if havePrev && sg.Tfdt() != prevEnd {
 					off := "gap"
 					if sg.Tfdt() < prevEnd {
 						off = "overlap"
 					}
-					res.Violate("C15.contiguous", merge(core.Sig("kind", "non-contiguous", "content", ca.ContentType), pickTraits(a.Traits, "asset", "class")),
+					res.Violate("C15.contiguous", merge(core.Sig("kind", "non-contiguous", "content", ca.ContentType), pickTraits(a.Traits, "asset", "class", "gapin")),
 						"%s %s (%s instance, %s, vod addressing %s): %s: segment %s starts at %d, previous ended at %d (timescale %d)", a.Name, ca.RepID, r.curMode, typ,
 						a.Traits["addressing"], off, ds.URL, sg.Tfdt(), prevEnd, in.Timescale)
 				}
